@@ -138,7 +138,8 @@ def gapCheckMax (mx : Nat) : Nat → List (Nat × T) → Option (Nat × Nat)
     if k = next ∧ k ≤ mx then gapCheckMax mx (next+1) rest else some (k, next)
 
 /-- `List::bulk_update` (`list.rs` + `interface.rs:137-143`, with the `fix:` commits for F3 and
-F8): every key at or beyond the backing length is visited (`for_each_range(len, usize::MAX)`). -/
+F8, F9): every key at or beyond the backing length is visited (`for_each_range(len, usize::MAX)`;
+the excluded end `usize::MAX` is checked separately). -/
 def bulkUpdate (cfg : Cfg) (c : Coll T) (u : UMap T) : Except Err (Coll T) :=
   if c.hasPending then .error .bulkUpdateUnclean
   else
@@ -146,6 +147,7 @@ def bulkUpdate (cfg : Cfg) (c : Coll T) (u : UMap T) : Except Err (Coll T) :=
     | none => .ok { c with updates := u }
     | some mx =>
       if mx ≥ cfg.N then .error .invalidListUpdate
+      else if (u.get (2 ^ 64 - 1)).isSome then .error .invalidListUpdate   -- the key `usize::MAX`
       else
         match gapCheckMax mx c.length (u.range c.length (2 ^ 64 - 1)) with
         | some (index, next) => .error (.outOfBoundsUpdate index next)
